@@ -72,8 +72,12 @@ def walk(case, rec, mo):
         return evs
     cur = ci; synced = e.rm == "ok"
     msteps = mo.get("steps", [])
+    ro = rec.get("reorder")
     for i, (op, st) in enumerate(zip(case["ops"], rec["steps"])):
         m = msteps[i] if i < len(msteps) else {"r": "missing"}
+        if ro and ro["oi"] == i:
+            # the game was stored and restored before this move with the hands written in another order
+            cur = {**cur, "p1": list(ro["p1"]), "p2": list(ro["p2"])}
         e = Ev(); e.i = i; e.op = op; e.kind = "probe" if op.get("probe") else "act"; e.prev = cur
         e.ri = st["r"]; e.rm = "ok" if m["r"] == "ok" else "rej"; e.oi = st.get("s"); e.om = m.get("s")
         e.synced = synced; e.unchanged = st.get("unchanged"); e.exc = st.get("e", ""); e.srej = st.get("s_rej")
@@ -107,7 +111,10 @@ class GinProp(Prop):
                    "moves after the game is complete are not probed (the properties do not speak about them)"]
 
     def gen_case(self, rng):
-        return gin.play(rng, gin.gen_game(rng), probes=self.probes)
+        c = gin.gen_game(rng)
+        if c.get("resume_at") is not None and rng.random() < 0.6:
+            c["resume_order"] = rng.choice(["sorted", "reversed", "display", "rot"])
+        return gin.play(rng, c, probes=self.probes)
 
     def generate(self, rng, tier, shard):
         while True:
@@ -117,7 +124,7 @@ class GinProp(Prop):
         return gin.run_ops(case)
 
     def request(self, case, io):
-        return gin.request(case)
+        return gin.request(case, io)
 
     def correspondence(self, case, evs):
         why = []
@@ -847,7 +854,7 @@ class C19(Prop):
 
     def generate(self, rng, tier, shard):
         while True:
-            c = {"hand": gin.dense_cards(rng, rng.choice([7, 8])), "own": rng.random() < 0.4}
+            c = {"hand": (gin.ricky_made_hand(rng) if rng.random() < 0.4 else gin.dense_cards(rng, rng.choice([7, 8]))), "own": rng.random() < 0.4}
             if rng.random() < 0.25:
                 c["pre"] = rng.randrange(1, 1 << 16)
             yield c
